@@ -323,6 +323,48 @@ def ob_fetch_refs(cx):
     cx.cover(how)
 
 
+def ob_stale_cache(cx):
+    """A container that has already read packed-refs keeps working while ANOTHER process repacks the refs (git pack-refs:
+    the value moves from the loose file into packed-refs) and possibly advances the ref afterwards.  A conditional delete
+    through the first container must still compare against, and remove, what is on disk now."""
+    T = cx.mod(TG)
+    t, how, cur = _scenario(cx)
+    if how in ("symref", "packed_peeled", "absent"):
+        cx.assume(False)
+    other = cx.bytes("other_entry", 40, HEX)
+    newer = cx.bytes("newer", 40, HEX)
+    for v in (cur, newer):
+        cx.assume(v != ZERO)
+    refs = T.TransportRefsContainer(t)
+    refs.get_packed_refs()                         # the first container's view of packed-refs, from before the repack
+    env = cx.pick("other_process", ["pack", "pack_then_advance"])
+    t.files["packed-refs"] = cur + b" refs/heads/a\n" + other + b" refs/heads/z\n"
+    t.files.pop("refs/heads/a", None)
+    current = cur
+    if env == "pack_then_advance":
+        cx.assume(newer != cur)
+        t.files["refs/heads/a"] = newer + b"\n"
+        current = newer
+    use_old = cx.choose("have_old", 0, 1)
+    old = cx.bytes("old", 40, HEX) if use_old else None
+    before = _snapshot(t)
+    ok = refs.remove_if_equals(NAME, old)
+    should = (old is None) or cx.truth(old == current)
+    fresh = T.TransportRefsContainer(t)
+    if should:
+        cx.require(ok is True, "conditional delete refused although the expected value is the current one")
+        cx.require(fresh.read_loose_ref(NAME) is None and NAME not in fresh.get_packed_refs(),
+                   "the ref was reported deleted but is still there (an entry written by the repack survived)")
+        cx.require(b"refs/heads/z" in fresh.get_packed_refs(), "deleting one ref lost another packed ref")
+        cx.cover("deleted")
+    else:
+        cx.require(ok is False, "conditional delete succeeded although the ref holds a different value now")
+        cx.require(_same(_snapshot(t), before), "failed conditional delete changed the stored refs")
+        cx.cover("refused")
+    cx.observe("ok", ok)
+    cx.cover(env)
+
+
 STATES = ["absent", "loose", "packed", "packed_peeled", "loose_and_packed", "symref"]
 
 
@@ -337,6 +379,9 @@ def obligations(tier):
            ["removed", "refused"] + [s for s in STATES if s != "symref"], setup=setup, bounds=b,
            known=["C37-cas-ignores-expected-value"]),
         Ob("add_if_new", ob_add_if_new, lift, {}, to, 1, ["added", "kept"] + STATES, setup=setup, bounds=b),
+        Ob("stale_cache_delete", ob_stale_cache, lift, {}, to, 1, ["deleted", "refused", "pack", "pack_then_advance"], setup=setup,
+           bounds=b + "; the deleting container read packed-refs before another process repacked (and possibly advanced) "
+                      "the ref"),
         Ob("fetch_refs", ob_fetch_refs, lift + [IR], {}, to, 1,
            ["pushed", "kept_theirs", "kept_deleted", "created_meanwhile"] + [s for s in STATES if s != "symref"], setup=setup,
            bounds=b + "; one interfering updater (set / delete / create with a symbolic value) between fetch_refs' snapshot and "
